@@ -2,6 +2,58 @@
 
 # id -> dict(text, note, technique, design_ref)  for claimed properties
 CLAIMED = {
+    "C01": dict(
+        text=(
+            "Static necessary conditions of chunking/processor independence: closed ownership table for "
+            "in-place edits of chunk objects (a published chunk is never modified while other "
+            "subscribers hold it; get_iter must edit a copy), effect summaries showing that plugins "
+            "with cross-chunk state resolve parallel=False and that only do_compute is submitted to "
+            "executors under the parallel flag, single producer per data type in both processors, "
+            "continuity guard on the user-facing iterator.  Row-for-row equality of results is not "
+            "decided."
+        ),
+        note="Trusted: CPython ast; receiver-name table distinguishing plugins from chunks; ownership reasons in sa/props/c01.py.",
+        technique="ownership / who-may-write table with reaching-definition conditions, effect summaries over the class hierarchy, provenance of fan-out arguments",
+        design_ref="DESIGN.md section 4 C01",
+    ),
+    "C12": dict(
+        text=(
+            "Static validation-path analysis: dead-guard lint (a comparison guard whose operands are "
+            "the same expression after inlining reaching definitions), must-pass-through of label and "
+            "dtype checkers on every chunk-returning path of _fix_output and of every override "
+            "(sibling agreement), chunk constructor guards compared with their specification on all "
+            "weak orderings, continuity guard, time-field decision table and its coverage of all "
+            "plugin construction paths."
+        ),
+        note="Trusted: CPython ast; numpy dtype inequality; checker discovery by role (functions that raise on data_type / dtype mismatch).",
+        technique="dead-guard lint with flow-sensitive inlining, cut-set path rules, ordering-domain enumeration, decision tables",
+        design_ref="DESIGN.md section 4 C12",
+    ),
+    "C15": dict(
+        text=(
+            "Static race detection on the Context state shared by multi_run workers (lockset analysis "
+            "over functions reachable from the submitted callable: size-changing writes vs. Python-level "
+            "iteration, rebinding vs. subscript reads), plus CFG rules on multi_run's result "
+            "collection.  The tree violates the race rule (Context has no lock): the 15 racy "
+            "(attribute, writer, reader) pairs are recorded as known findings; any new pair is a "
+            "violation."
+        ),
+        note="Trusted: GIL atomicity of single dict/list operations and of list()/dict()/.copy(); call graph restricted to self-calls on Context.",
+        technique="lockset-style static race detection with effect summaries and alias tracking; dominator rules on multi_run",
+        design_ref="DESIGN.md section 4 C15",
+    ),
+    "C16": dict(
+        text=(
+            "Closed table of destructive calls with required target provenance and guards, overwrite "
+            "decision (find(write=True)) or destination-is-not-source guard before every direct saver "
+            "creation, path-sensitive Future-typed-local lint, copy-target filter clauses, inspection of "
+            "an asynchronously running saver's outcome before acting on it, ordering of verify / remove "
+            "/ move in the rechunker.  Equality of the copied rows is not decided."
+        ),
+        note="Trusted: CPython ast; concurrent.futures.Future API; the reviewed destructive-call table in sa/props/c16.py.",
+        technique="who-may-call table with provenance and guard dominance, path-sensitive abstract interpretation, cut-set path rules",
+        design_ref="DESIGN.md section 4 C16",
+    ),
     "C02": dict(
         text=(
             "Static cache-coherence and determinism analysis: what the fixed plugin cache is keyed on "
